@@ -58,6 +58,9 @@ SHADOW = {
     "label-later-in-scope": ("*=0x8000\nx := a\n{\n.dw x\nx:\n}\n.db x\n", [0x02, 0x80, "a"]),
     "loopvar-label": ("*=0x8000\n.for i := 0, 2 {\n{\ni:\n.dw i\n}\n.db i + a\n}\n", [0x00, 0x80, ("plus", 0), 0x03, 0x80, ("plus", 1)]),
     "param-eq": ("*=0x8000\n.macro m(q) {\n{\nq = b\n.db q\n}\n.db q\n}\nm(a)\nm(b)\n", ["b", "a", "b", "b"]),
+    # entries naming `scope.label` of a named scope that a macro body / loop body declares: each expansion has its own
+    "macro-scope-export": ("*=0x8000\n.macro handler(id) {\n.scope h {\nentry:\n.db id\n}\n.dw h.entry\n}\nhandler(a)\nhandler(b)\nhandler(1)\n", ["a", 0x00, 0x80, "b", 0x03, 0x80, 1, 0x06, 0x80]),
+    "loop-scope-export": ("*=0x8000\n.for i := 0, 2 {\n.scope h {\nentry:\n.db a\n}\n.dl h.entry\n.pointer h.entry\n}\n", ["a", 0x00, 0x80, 0x00, 0x00, 0x80, 0x00, "a", 0x07, 0x80, 0x00, 0x07, 0x80, 0x00]),
     "param-label-in-dl": ("*=0x8000\n.macro m(q) {\n{\n.dl q\nq:\n}\n.db q\n}\nm(a)\n", [0x03, 0x80, 0x00, "a"]),
 }
 
